@@ -2,6 +2,7 @@ package gw
 
 import (
 	"bytes"
+	"encoding/json"
 	"errors"
 	"fmt"
 	"net/http"
@@ -74,7 +75,8 @@ type World struct {
 	nHTTP   int
 	https   []*HTTPCall
 	stopCh  <-chan error
-	qpos    map[string][]int // per resource: queue positions (1-based enqueue counts) of delivered query events
+	tokpos  map[string][]tokPos // per connection id: queue positions of delivered token events
+	qpos    map[string][]int    // per resource: queue positions (1-based enqueue counts) of delivered query events
 }
 
 // HTTPCall is an HTTP request in flight.
@@ -262,6 +264,16 @@ func (w *World) Grant(key string) bool {
 			}
 		}
 	}
+	if strings.HasPrefix(raw, "conn:") {
+		cid := raw[5:]
+		next := w.S.counter("done", raw) + 1
+		for len(w.tokpos[cid]) > 0 && w.tokpos[cid][0].pos <= next {
+			if w.tokpos[cid][0].pos == next {
+				w.rec(Ev{Kind: "toktask", C: w.label(cid), Text: w.tokpos[cid][0].tok, Subj: w.tokpos[cid][0].tid})
+			}
+			w.tokpos[cid] = w.tokpos[cid][1:]
+		}
+	}
 	w.rec(Ev{Kind: "sched", Text: key})
 	if !w.S.release(raw) {
 		return false
@@ -270,6 +282,12 @@ func (w *World) Grant(key string) bool {
 	w.stable()
 	w.flushSites()
 	return true
+}
+
+type tokPos struct {
+	pos int
+	tok string
+	tid string
 }
 
 func (w *World) flushSites() {
@@ -363,7 +381,28 @@ func (w *World) Event(ns, event string, payload []byte) bool {
 	}
 	subj := ns + "." + event
 	w.rec(Ev{Kind: "mqevent", Subj: subj, Text: string(payload)})
+	tokBefore := 0
+	if event == "token" && strings.HasPrefix(ns, "conn.") {
+		tokBefore = w.S.counter("enq", "connq:"+ns[5:])
+	}
 	s.cb(subj, payload, nil)
+	if event == "token" && strings.HasPrefix(ns, "conn.") {
+		// remember the position of the token event's task in the connection's queue: from the moment that task runs,
+		// every request made on the connection's behalf must carry the new token (recorded as TOKTASK by Grant)
+		cid := ns[5:]
+		if after := w.S.counter("enq", "connq:"+cid); after > tokBefore {
+			var te struct {
+				Token json.RawMessage `json:"token"`
+				TID   string          `json:"tid"`
+			}
+			if json.Unmarshal(payload, &te) == nil {
+				if w.tokpos == nil {
+					w.tokpos = map[string][]tokPos{}
+				}
+				w.tokpos[cid] = append(w.tokpos[cid], tokPos{after, string(te.Token), te.TID})
+			}
+		}
+	}
 	if event == "query" && strings.HasPrefix(ns, "event.") {
 		// remember the position of the query event in the resource's task queue: the cached query variants are
 		// recorded right before the task runs (Grant)
@@ -526,7 +565,7 @@ func (w *World) Close() {
 
 // StopResult is what the harness observed around a Stop or a loss of the messaging connection.
 type StopResult struct {
-	Returned      bool   // the stop channel reported within the bound
+	Returned      bool // the stop channel reported within the bound
 	ElapsedMS     int64
 	Cause         string // the error reported on the stop channel
 	ClientsClosed bool   // every open client socket was closed by the gateway
